@@ -1,7 +1,7 @@
 """C11 Any byte string as input file is handled cleanly: failure, no crash, no output."""
 from .common import combined
 LEVEL = 'other'
-RULES = ('R11.a', 'R11.b', 'R11.g', 'S-CMP', 'R07.e', 'R07.g', 'R01.e', 'R11.d', 'R11.f', 'S-GATE', 'R01.b', 'R01.c', 'R01.d', 'R12.a', 'R12.b', 'R07.d')
+RULES = ('R04.g', 'R04.f', 'R11.a', 'R11.b', 'R11.g', 'S-CMP', 'R07.e', 'R07.g', 'R01.e', 'R11.d', 'R11.f', 'S-GATE', 'R01.b', 'R01.c', 'R01.d', 'R12.a', 'R12.b', 'R07.d')
 
 
 def run(prog, rec, tier):
